@@ -6,6 +6,8 @@ import (
 	"encoding/json"
 	"flag"
 	"fmt"
+	"go/printer"
+	"go/token"
 	"os"
 	"sort"
 	"strconv"
@@ -29,6 +31,7 @@ func main() {
 	replay := flag.String("replay", "", "replay file: re-decide the obligations listed there")
 	list := flag.Bool("list", false, "list rules")
 	dumpEmit := flag.Bool("dump-emit", false, "print the emission traces of the emitter functions and exit")
+	dumpNorm := flag.String("dump-normalised", "", "print the named function as the rules see it (after the normalising pre-passes) and exit")
 	dumpSigs := flag.Bool("dump-sigs", false, "print the signature table of the module's functions (used to regenerate anchors_table.go) and exit")
 	verbose := flag.Bool("v", false, "print every obligation")
 	flag.Parse()
@@ -62,7 +65,7 @@ func main() {
 		*prop = doc.Property
 		*verbose = true
 	}
-	if *prop == "" && !*dumpEmit && !*dumpSigs {
+	if *prop == "" && !*dumpEmit && !*dumpSigs && *dumpNorm == "" {
 		fmt.Println("usage: wirecheck -property Cnn [-tier quick|thorough]")
 		os.Exit(2)
 	}
@@ -80,6 +83,15 @@ func main() {
 			fmt.Printf("VIOLATION property=%s replay=%s/replay/%s.json\n", p, *evdir, p)
 		}
 		os.Exit(1)
+	}
+	if *dumpNorm != "" {
+		for _, fi := range c.all {
+			if fi.Name == *dumpNorm {
+				printer.Fprint(os.Stdout, token.NewFileSet(), fi.Decl)
+				fmt.Println()
+			}
+		}
+		return
 	}
 	if *dumpSigs {
 		fmt.Println("package main")
